@@ -1129,7 +1129,10 @@ def make_debug_item(run, kind, fid, t):
             run.emit("BatchDone", b=bid, a=0 if _b._error is None else 1)
             run._done(bid, _b)
         b.on_computed.subscribe(on_done)
-    it.fid = fid
+    try:
+        it.fid = fid
+    except AttributeError:
+        pass                # compiled build: DebugBatchItem is an extension type without a __dict__; run.obj_id has the id
     run.obj_id[id(it)] = fid
     run.keep.append(it)
     run.emit("NewItem", a=fid, b=run.debug_bids[id(b)], t=t)
